@@ -455,6 +455,125 @@ pub fn tame_net_for_big_plans(plan: &mut Plan) {
     }
 }
 
+// ---------------------------------------------------------------------------------------------
+// Systematic timing sweep: small scenarios, every placement on the millisecond grid
+
+fn sweep_net(v: usize) -> NetPolicy {
+    match v {
+        0 => NetPolicy::default(),
+        1 => NetPolicy {
+            s2c_mode: SegMode::Lines,
+            s2c_delay_ms: vec![1],
+            ..NetPolicy::default()
+        },
+        _ => NetPolicy {
+            s2c_mode: SegMode::Sizes(vec![7]),
+            s2c_delay_ms: vec![0, 1],
+            c2s_latency_ms: vec![1],
+            ..NetPolicy::default()
+        },
+    }
+}
+
+fn think_then(ms: u64, op: Op) -> Vec<Op> {
+    if ms == 0 {
+        vec![op]
+    } else {
+        vec![Op::Think { ms }, op]
+    }
+}
+
+/// Number of plans in the systematic sweep.
+pub fn timing_sweep_len() -> u64 {
+    let f1 = 11 * 11 * 2 * 3 * 2;
+    let f2 = 11 * 18 * 3 * 2;
+    let f3 = 7 * 7 * 7 * 3 * 2;
+    let f4 = 7 * 4 * 9 * 7 * 2 * 2;
+    (f1 + f2 + f3 + f4) as u64
+}
+
+/// The `i`-th plan of the systematic sweep: every relative placement (1 ms grid) of one or two
+/// requests, a cancellation and a two-subsystem change event, times three network variants and
+/// two `select!` seeds. Independent of the batch seed.
+pub fn timing_sweep_plan(i: u64) -> Plan {
+    let idx = i as usize;
+    let cur = std::cell::Cell::new(idx);
+    let take = |n: usize| {
+        let v = cur.get() % n;
+        cur.set(cur.get() / n);
+        v
+    };
+    let mut p = Plan::empty(0);
+    let change = |at: u64| ChangeEvent {
+        at_ms: at,
+        names: vec!["player".to_string(), "mixer".to_string()],
+    };
+    let f1 = 11 * 11 * 2 * 3 * 2;
+    let f2 = 11 * 18 * 3 * 2;
+    let f3 = 7 * 7 * 7 * 3 * 2;
+    let total_before_f4 = f1 + f2 + f3;
+    if idx < f1 {
+        // F1: one request, one change
+        let (tr, tc, d, v, s) = (take(11), take(11), take(2), take(3), take(2));
+        p.callers = vec![think_then(tr as u64, Op::Request { id: 1 })];
+        p.changes = vec![change(tc as u64)];
+        p.replies.insert(1, ReplyShape { fields: 1, value_len: 3, delay_ms: (d * 2) as u32, ..Default::default() });
+        p.net = sweep_net(v);
+        p.tokio_seed = s as u64;
+    } else if idx < f1 + f2 {
+        // F2: a second request around the end of the re-idle window, change near either
+        cur.set(idx - f1);
+        let (w, tci, v, s) = (take(11), take(18), take(3), take(2));
+        let tc = if tci < 9 { tci as u64 } else { 100 + (tci as u64 - 9) };
+        p.callers = vec![vec![
+            Op::Request { id: 1 },
+            Op::Think { ms: 95 + w as u64 },
+            Op::Request { id: 2 },
+        ]];
+        p.changes = vec![change(tc)];
+        p.replies.insert(1, ReplyShape { fields: 1, value_len: 2, ..Default::default() });
+        p.replies.insert(2, ReplyShape { fields: 0, value_len: 0, delay_ms: 1, ..Default::default() });
+        p.net = sweep_net(v);
+        p.tokio_seed = s as u64;
+    } else if idx < total_before_f4 {
+        // F3: two callers and a change
+        cur.set(idx - f1 - f2);
+        let (ta, tb, tc, v, s) = (take(7), take(7), take(7), take(3), take(2));
+        p.callers = vec![
+            think_then(ta as u64, Op::Request { id: 1 }),
+            think_then(tb as u64, Op::List { ids: vec![2, 3] }),
+        ];
+        p.changes = vec![change(tc as u64)];
+        p.replies.insert(1, ReplyShape { fields: 1, value_len: 2, delay_ms: 1, ..Default::default() });
+        p.replies.insert(2, ReplyShape { fields: 1, value_len: 1, ..Default::default() });
+        p.replies.insert(3, ReplyShape { fail: Some(50), partial_fields: 1, ..Default::default() });
+        p.net = sweep_net(v);
+        p.tokio_seed = s as u64;
+    } else {
+        // F4: a cancelled request, a following request, a change
+        cur.set(idx - total_before_f4);
+        let (tr, c, t2, tc, v, s) = (take(7), take(4), take(9), take(7), take(2), take(2));
+        p.callers = vec![
+            {
+                let mut c0 = think_then(
+                    tr as u64,
+                    Op::Cancel { op: Box::new(Op::Request { id: 1 }), after_ms: c as u64 },
+                );
+                c0.push(Op::Request { id: 2 });
+                c0
+            },
+            think_then(t2 as u64, Op::Request { id: 3 }),
+        ];
+        p.changes = vec![change(tc as u64)];
+        p.replies.insert(1, ReplyShape { fields: 1, value_len: 1, delay_ms: 2, ..Default::default() });
+        p.replies.insert(2, ReplyShape::default());
+        p.replies.insert(3, ReplyShape { fields: 1, value_len: 1, ..Default::default() });
+        p.net = sweep_net(v + 1);
+        p.tokio_seed = s as u64;
+    }
+    p
+}
+
 pub fn base_plan(rng: &mut Rng) -> Plan {
     let mut p = Plan::empty(rng.next_u64());
     p.version = (*rng.pick(&["0.23.5", "0.21.11", "0.24", "0.19.0~git x"])).to_string();
